@@ -51,6 +51,8 @@ type CatRelease struct {
 type C20Params struct {
 	Running  string           `json:"running_version"`
 	Releases []CatRelease     `json:"releases"`
+	// Withdrawn: tags of releases that disappear from the listing after its first request (a release pulled between two requests of one run)
+	Withdrawn []string `json:"withdrawn,omitempty"`
 	Faults   []simrt.NetFault `json:"faults,omitempty"`
 	Token    bool             `json:"github_token"`
 	Plan     simrt.Plan       `json:"plan"`
@@ -104,6 +106,39 @@ func flipBit(b []byte) []byte {
 }
 
 // renderCatalogue turns the model into routes; served[id] is what the network serves for an asset.
+func renderCatalogue2(rels []CatRelease, withdrawn []string) (routes []simrt.Route, served map[int][]byte) {
+	routes, served = renderCatalogue(rels)
+	if len(withdrawn) == 0 {
+		return
+	}
+	var later []CatRelease
+	for _, r := range rels {
+		gone := false
+		for _, w := range withdrawn {
+			if r.Tag == w {
+				gone = true
+			}
+		}
+		if !gone {
+			later = append(later, r)
+		}
+	}
+	lr, _ := renderCatalogue(later)
+	listingURL := "https://api.github.com/repos/coreruleset/crs-toolchain/releases"
+	for i := range routes {
+		if routes[i].URL == listingURL {
+			routes[i].UntilNth = 1
+		}
+	}
+	for _, r := range lr {
+		if r.URL == listingURL {
+			r.FromNth = 2
+			routes = append(routes, r)
+		}
+	}
+	return
+}
+
 func renderCatalogue(rels []CatRelease) (routes []simrt.Route, served map[int][]byte) {
 	served = map[int][]byte{}
 	type jAsset struct {
@@ -229,6 +264,9 @@ func genC20(t *rapid.T, tier string) (*World, any) {
 				sums = append(sums, sha256hex([]byte("something else"))+"  "+mine.Name)
 			case 3: // digest of this asset recorded under another name only
 				sums = append(sums, strings.Replace(good, mine.Name, "crs-toolchain_"+ver+"_plan9_amd64.tar.gz", 1))
+			case 5: // the digest of the bytes served is recorded for a file whose name merely ends in the asset's name; the asset's own line says something else
+				sums = append(sums, sha256hex(buildArchive(mine, "crs-toolchain"))+"  bundle_"+mine.Name)
+				sums = append(sums, sha256hex([]byte("not this"))+"  "+mine.Name)
 			case 4: // bytes served differ from what was summed
 				sums = append(sums, good)
 				mine.ServeFlipped = true
@@ -243,6 +281,9 @@ func genC20(t *rapid.T, tier string) (*World, any) {
 			r.Assets = append(r.Assets, CatAsset{ID: id, Name: "crs-toolchain-checksums.txt", Kind: "checksums", Sums: strings.Join(sums, "\n") + "\n"})
 		}
 		p.Releases = append(p.Releases, r)
+	}
+	if len(p.Releases) > 1 && chance(t, 10, "withdraw") {
+		p.Withdrawn = []string{p.Releases[drawInt(t, 0, len(p.Releases)-1, "withdrawn")].Tag}
 	}
 	// fault sequence: at most two, on the listing (request 1), the first download (2) or the second download (3)
 	nf := drawInt(t, 0, 2, "nfaults")
@@ -360,7 +401,7 @@ func evalC20(sc *Scenario, sim *Sim) ([]Violation, bool, string) {
 		}
 	}
 	before, _ := os.ReadFile(sb.Path(exe))
-	routes, served := renderCatalogue(p.Releases)
+	routes, served := renderCatalogue2(p.Releases, p.Withdrawn)
 	plan := p.Plan
 	plan.Net = &simrt.NetPlan{Routes: routes, Faults: p.Faults}
 	st := Step{Argv: []string{"self-update"}, Cwd: "work", Plan: plan, ExePath: exe, Version: p.Running}
